@@ -62,7 +62,7 @@ def run(ctx):
     standard_front(ctx, __import__("c06"))
     rng = ctx.rng
     known, _ = load_known(PROP)
-    N = 1500 if ctx.tier == "thorough" else 250
+    N = 6000 if ctx.tier == "thorough" else 250
     amounts = set()
     for il in range(1, 16):
         for fl in range(0, 6):
